@@ -4,26 +4,25 @@
    compile_correct_* (Props/C16.v) relate the VM model to CompileSem.lx_l, a big-step semantics
    over VALUE environments; every evaluator check of the development runs against coq/Sem.v,
    where every value is a heap cell.  Here: on the fragment [tfrag_l] (number / bool / ASCII
-   string literals, variables, groups, unary - !, + - * / and the comparisons on numbers, + and
-   the comparisons on strings, == != on numbers, bools and strings; declarations anywhere,
+   string literals, variables, groups, unary - !, + - * / % and the comparisons on numbers, + and
+   the comparisons on strings, array literals, a[i] on arrays and strings, + on arrays, == != when
+   one operand is manifestly a number, string or bool ([scalar_valued]); declarations anywhere,
    assignments to variables, if / else if / else, while, break, the empty statement), whenever
    lx_l is defined the Sem.v run of the same program ends normally, prints nothing, and every
    variable of lx_l's final environment is a global of the final Sem state whose cell reads
-   back ([reify]) as that value.  _partial: arrays, maps, indexing, slicing, %, and the for
-   loops are not covered (see the report in CompileSemTie.v). *)
+   back ([holds]; [reify] for basic cells) as that value.  _partial: maps, slices, array
+   repetition, == on arrays, non-ASCII strings and the for loops are not covered (see the report in CompileSemTie.v). *)
 From Coq Require Import ZArith NArith List String Bool Floats.
 From EvyV Require Import Base Num Ast Omap Sem CompileSemTie CompileSemTieVm.
 From EvyV Require Bytecode SymTab Vm VmProofs Compile CompileSem CompileStmtProofs.
 Require EvyV.Gen.Opcodes.
 Import ListNotations.
 
-Module C := Compile.
-Module CS := CompileSem.
 
 (* expressions: from related environments the Sem evaluation succeeds with a cell holding
    the value of Compile.eval_expr, only allocating and yielding *)
 Theorem C16_tie_expr_partial : forall P e x, xrel e x -> forall lenv E s v,
-  tfrag_e e = true -> C.eval_expr (fun n => CS.slook n lenv) e = Some v ->
+  tfrag_e e = true -> Compile.eval_expr (fun n => CompileSem.slook n lenv) e = Some v ->
   envrel lenv E s -> good s -> ev_ok P E x s v.
 Proof. exact tie_expr. Qed.
 Print Assumptions C16_tie_expr_partial.
@@ -35,13 +34,13 @@ Proof. exact tie_all. Qed.
 Print Assumptions C16_tie_statements_partial.
 
 (* whole programs: P is any Ast program whose statements are p with arbitrary type annotations *)
-Theorem C16_tie_program_partial : forall (P : program) (p : C.slist) fuel env' s0,
-  CS.lx_l fuel p [[]] = Some (env', false) ->
+Theorem C16_tie_program_partial : forall (P : program) (p : Compile.slist) fuel env' s0,
+  CompileSem.lx_l fuel p [[]] = Some (env', false) ->
   lrel p (p_stmts P) -> tfrag_l p = true ->
   good s0 -> st_total s0 = 0%nat -> st_fails s0 = 0%nat ->
   exists N s1, (forall n, (N <= n)%nat -> run_program n P s0 = (ODone, s1)) /\
                st_trace s1 = st_trace s0 /\
-               forall n v, CS.slook n env' = Some v -> sem_global s1 n = Some v.
+               forall n v, CompileSem.slook n env' = Some v -> sem_global s1 n v.
 Proof. exact tie_program. Qed.
 Print Assumptions C16_tie_program_partial.
 
@@ -51,26 +50,34 @@ Proof. exact (proj1 (proj2 tr_rel)). Qed.
 Print Assumptions C16_tie_translation.
 
 (* reading back is the relation used in the proofs *)
-Theorem C16_tie_reify : forall h l v, holds h l v <-> reify h l = Some v.
-Proof. exact holds_reify. Qed.
+Theorem C16_tie_reify : forall h l v,
+  (reify h l = Some v -> holds h l v) /\ (scalar v -> holds h l v -> reify h l = Some v).
+Proof. intros h l v. split; [apply reify_holds | apply holds_reify]. Qed.
 Print Assumptions C16_tie_reify.
+
+(* the expression lists of array literals *)
+Theorem C16_tie_expr_list_partial : forall P l xl, xlrel l xl -> forall lenv E s vs,
+  tfrag_el l = true -> Compile.eval_list (fun n => CompileSem.slook n lenv) l = Some vs ->
+  envrel lenv E s -> good s -> evs_ok P E xl s vs.
+Proof. exact (fun P => proj2 (tie_expr_all P)). Qed.
+Print Assumptions C16_tie_expr_list_partial.
 
 (* VM model = evaluator model: compile_correct_locals composed with the tie *)
 Theorem C16_vm_equals_evaluator_model_partial :
-  forall (P : program) (p : C.slist) (st : C.cstate) (fuel : nat) (env' : CS.senv) input ff ay,
+  forall (P : program) (p : Compile.slist) (st : Compile.cstate) (fuel : nat) (env' : CompileSem.senv) input ff ay,
   tfrag_l p = true -> lrel p (p_stmts P) ->
-  CS.lpfrag p = true -> C.compile p = C.COk st ->
-  CS.lx_l fuel p [[]] = Some (env', false) ->
-  (SymTab.st_local_count (C.csym st) + CS.ldepth p <= Gen.Opcodes.StackSize)%N ->
-  let prog := C.program_of (C.bytecode_of st) in
+  CompileSem.lpfrag p = true -> Compile.compile p = Compile.COk st ->
+  CompileSem.lx_l fuel p [[]] = Some (env', false) ->
+  (SymTab.st_local_count (Compile.csym st) + CompileSem.ldepth p <= Gen.Opcodes.StackSize)%N ->
+  let prog := Compile.program_of (Compile.bytecode_of st) in
   exists sv N s1,
     CompileStmtProofs.reaches prog (Vm.vm_init prog) sv /\ Vm.vm_step prog sv = Vm.Halted sv /\
     Vm.ostack sv = [] /\
     (forall n, (N <= n)%nat -> run_program n P (init_state None input ff ay) = (ODone, s1)) /\
     st_trace s1 = [] /\
-    forall n y v, SymTab.st_resolve n (C.csym st) = Some y -> CS.slook n env' = Some v ->
+    forall n y v, SymTab.st_resolve n (Compile.csym st) = Some y -> CompileSem.slook n env' = Some v ->
                   nth_error (Vm.globals sv) (N.to_nat (SymTab.sidx y)) = Some v /\
-                  sem_global s1 n = Some v.
+                  sem_global s1 n v.
 Proof. exact vm_equals_evaluator_model_partial. Qed.
 Print Assumptions C16_vm_equals_evaluator_model_partial.
 
@@ -85,33 +92,69 @@ Print Assumptions C16_vm_equals_evaluator_model_partial.
            s = t
        end
    end *)
-Definition ex_p : C.slist :=
-  C.SCons (C.SDecl (s_ "x") (C.ENum 1%float))
-  (C.SCons (C.SDecl (s_ "s") (C.EStr (s_ "a")))
-  (C.SCons (C.SWhile (C.EBin C.BLt C.TNum C.TNum (C.EVar (s_ "x")) (C.ENum 4%float))
-     (C.SCons (C.SAssign (C.EVar (s_ "x")) (C.EBin C.BPlus C.TNum C.TNum (C.EVar (s_ "x")) (C.ENum 1%float)))
-     (C.SCons (C.SIf (C.EBin C.BEq C.TNum C.TNum (C.EVar (s_ "x")) (C.ENum 3%float))
-                 (C.SCons (C.SDecl (s_ "t") (C.EBin C.BPlus C.TStr C.TStr (C.EVar (s_ "s")) (C.EStr (s_ "b"))))
-                 (C.SCons (C.SAssign (C.EVar (s_ "s")) (C.EVar (s_ "t"))) C.SNil))
-                 C.CNil C.NoElse)
-      C.SNil)))
-   C.SNil)).
+Definition ex_p : Compile.slist :=
+  Compile.SCons (Compile.SDecl (s_ "x") (Compile.ENum 1%float))
+  (Compile.SCons (Compile.SDecl (s_ "s") (Compile.EStr (s_ "a")))
+  (Compile.SCons (Compile.SWhile (Compile.EBin Compile.BLt Compile.TNum Compile.TNum (Compile.EVar (s_ "x")) (Compile.ENum 4%float))
+     (Compile.SCons (Compile.SAssign (Compile.EVar (s_ "x")) (Compile.EBin Compile.BPlus Compile.TNum Compile.TNum (Compile.EVar (s_ "x")) (Compile.ENum 1%float)))
+     (Compile.SCons (Compile.SIf (Compile.EBin Compile.BEq Compile.TNum Compile.TNum (Compile.EVar (s_ "x")) (Compile.ENum 3%float))
+                 (Compile.SCons (Compile.SDecl (s_ "t") (Compile.EBin Compile.BPlus Compile.TStr Compile.TStr (Compile.EVar (s_ "s")) (Compile.EStr (s_ "b"))))
+                 (Compile.SCons (Compile.SAssign (Compile.EVar (s_ "s")) (Compile.EVar (s_ "t"))) Compile.SNil))
+                 Compile.CNil Compile.NoElse)
+      Compile.SNil)))
+   Compile.SNil)).
 Definition ex_P : program := {| p_funcs := []; p_handlers := []; p_stmts := tr_l ex_p |}.
 
 Example C16_tie_ex_hyps :
-  tfrag_l ex_p = true /\ CS.lpfrag ex_p = true /\
-  (exists st, C.compile ex_p = C.COk st) /\
-  (exists env', CS.lx_l 40 ex_p [[]] = Some (env', false) /\
-                CS.slook (s_ "x") env' = Some (Vm.VNum 4%float) /\
-                CS.slook (s_ "s") env' = Some (Vm.VStr (s_ "ab"))).
+  tfrag_l ex_p = true /\ CompileSem.lpfrag ex_p = true /\
+  (exists st, Compile.compile ex_p = Compile.COk st) /\
+  (exists env', CompileSem.lx_l 40 ex_p [[]] = Some (env', false) /\
+                CompileSem.slook (s_ "x") env' = Some (Vm.VNum 4%float) /\
+                CompileSem.slook (s_ "s") env' = Some (Vm.VStr (s_ "ab"))).
 Proof.
   split; [reflexivity|]. split; [reflexivity|]. split.
-  - destruct (C.compile ex_p) eqn:Q; [eexists; reflexivity|]. vm_compute in Q. discriminate Q.
+  - destruct (Compile.compile ex_p) eqn:Q; [eexists; reflexivity|]. vm_compute in Q. discriminate Q.
   - eexists. split; [vm_compute; reflexivity|]. split; vm_compute; reflexivity.
 Qed.
 
 Example C16_tie_ex_sem :
   let r := run_program 200 ex_P (init_state None [] false false) in
-  fst r = ODone /\ sem_global (snd r) (s_ "x") = Some (Vm.VNum 4%float) /\
-  sem_global (snd r) (s_ "s") = Some (Vm.VStr (s_ "ab")).
+  fst r = ODone /\
+  option_map (reify (st_heap (snd r))) (frame_get (s_ "x") (st_globals (snd r))) = Some (Some (Vm.VNum 4%float)) /\
+  option_map (reify (st_heap (snd r))) (frame_get (s_ "s") (st_globals (snd r))) = Some (Some (Vm.VStr (s_ "ab"))).
 Proof. vm_compute. repeat split; reflexivity. Qed.
+
+(* arrays, indexing, concatenation, string indexing:
+   a := [1 2]
+   b := a + [3]
+   x := b[2]
+   s := "hey"
+   c := s[1]
+   e := a[0] == 1 *)
+Definition ex_q : Compile.slist :=
+  Compile.SCons (Compile.SDecl (s_ "a") (Compile.EArr (Compile.ECons (Compile.ENum 1%float) (Compile.ECons (Compile.ENum 2%float) Compile.ENil))))
+  (Compile.SCons (Compile.SDecl (s_ "b") (Compile.EBin Compile.BPlus Compile.TArr Compile.TArr (Compile.EVar (s_ "a")) (Compile.EArr (Compile.ECons (Compile.ENum 3%float) Compile.ENil))))
+  (Compile.SCons (Compile.SDecl (s_ "x") (Compile.EIndex (Compile.EVar (s_ "b")) (Compile.ENum 2%float)))
+  (Compile.SCons (Compile.SDecl (s_ "s") (Compile.EStr (s_ "hey")))
+  (Compile.SCons (Compile.SDecl (s_ "c") (Compile.EIndex (Compile.EVar (s_ "s")) (Compile.ENum 1%float)))
+  (Compile.SCons (Compile.SDecl (s_ "e") (Compile.EBin Compile.BEq Compile.TNum Compile.TNum (Compile.EIndex (Compile.EVar (s_ "a")) (Compile.ENum 0%float)) (Compile.ENum 1%float)))
+   Compile.SNil))))).
+Definition ex_Q : program := {| p_funcs := []; p_handlers := []; p_stmts := tr_l ex_q |}.
+
+Example C16_tie_ex_arrays :
+  tfrag_l ex_q = true /\ CompileSem.lpfrag ex_q = true /\
+  (exists env', CompileSem.lx_l 40 ex_q [[]] = Some (env', false) /\
+                CompileSem.slook (s_ "x") env' = Some (Vm.VNum 3%float) /\
+                CompileSem.slook (s_ "c") env' = Some (Vm.VStr (s_ "e")) /\
+                CompileSem.slook (s_ "e") env' = Some (Vm.VBool true) /\
+                CompileSem.slook (s_ "b") env' = Some (Vm.VArr [Vm.VNum 1%float; Vm.VNum 2%float; Vm.VNum 3%float])) /\
+  (let r := run_program 200 ex_Q (init_state None [] false false) in
+   fst r = ODone /\
+   option_map (reify (st_heap (snd r))) (frame_get (s_ "x") (st_globals (snd r))) = Some (Some (Vm.VNum 3%float)) /\
+   option_map (reify (st_heap (snd r))) (frame_get (s_ "c") (st_globals (snd r))) = Some (Some (Vm.VStr (s_ "e"))) /\
+   option_map (reify (st_heap (snd r))) (frame_get (s_ "e") (st_globals (snd r))) = Some (Some (Vm.VBool true))).
+Proof.
+  split; [reflexivity|]. split; [reflexivity|]. split.
+  - eexists. split; [vm_compute; reflexivity|]. repeat split; vm_compute; reflexivity.
+  - vm_compute. repeat split; reflexivity.
+Qed.
